@@ -405,7 +405,14 @@ pub fn replay(prop: &dyn Property, path: &Path) -> i32 {
         .map(|e| e.signature)
         .collect();
     let tier = rf.tier_or(Tier::Thorough);
-    let (r, summary) = run_one(prop, &rf.case, tier, &known, true, true);
+    let (mut r, mut summary) = run_one(prop, &rf.case, tier, &known, true, true);
+    // a case whose outcome depends on the library's HashMap iteration order (random per instance) may need several runs
+    for _ in 0..7 {
+        if !matches!(r, CaseRun::Ok) {
+            break;
+        }
+        (r, summary) = run_one(prop, &rf.case, tier, &known, true, true);
+    }
     for l in summary.trace.iter() {
         println!("  {}", l);
     }
@@ -660,8 +667,16 @@ pub fn run(prop: &dyn Property, opt: &RunOptions) -> i32 {
                             shared.stop.store(true, Ordering::Relaxed);
                             // Re-run the shrunk value to get its own verdict.
                             let case = CaseId::choices(&value);
-                            let (r, _) = run_one(prop, &case, tier, known_open, false, true);
-                            if let CaseRun::Fail(f) = r {
+                            // the library iterates HashMaps with per-instance random state: a defect that depends on that order
+                            // shows in some runs of a case only, so the verdict is taken from up to eight runs
+                            let mut verdict = None;
+                            for _ in 0..8 {
+                                if let (CaseRun::Fail(f), _) = run_one(prop, &case, tier, known_open, false, true) {
+                                    verdict = Some(f);
+                                    break;
+                                }
+                            }
+                            if let Some(f) = verdict {
                                 results.lock().unwrap().push((shard, Violation { case, fail: f, driver: format!("proptest shard {shard}"), tier: None }));
                             } else {
                                 *shared.harness_bug.lock().unwrap() =
